@@ -6,6 +6,7 @@ import (
 	"log"
 	"os"
 	"path/filepath"
+	"sort"
 	"strings"
 	"time"
 
@@ -109,12 +110,18 @@ func (b *Bundle) AddGlobalsFile(filename string) *Bundle {
 }
 
 func (b *Bundle) AddGlobalsMap(globals data.Map) *Bundle {
-	for k, v := range globals {
+	// in sorted order, so that the same maps always report the same duplicate.
+	var keys = make([]string, 0, len(globals))
+	for k := range globals {
+		keys = append(keys, k)
+	}
+	sort.Strings(keys)
+	for _, k := range keys {
 		if existing, ok := b.globals[k]; ok {
 			b.err = fmt.Errorf("global %q already defined as %q", k, existing)
 			return b
 		}
-		b.globals[k] = v
+		b.globals[k] = globals[k]
 	}
 	return b
 }
